@@ -421,10 +421,22 @@ Proof.
   eapply rel0_trans; [exact R2|apply rel0_send_session].
 Qed.
 
+Lemma rel0_transient_update sid h k r del key val : rel0 sid h (fst (transient_update h k r del key val)).
+Proof.
+  unfold transient_update.
+  assert (Hn : forall d m, rel0 sid h (fst (transient_notify h k r d m))).
+  { intros d m. unfold transient_notify.
+    apply rel0_trans with (set_rooms h (pset (h_rooms h) k (room_set_transient r d))); [apply rel0_eq; reflexivity|].
+    apply rel0_fold_sessions. intros hh y. apply rel0_send_session. }
+  destruct (del || N.eqb val 0).
+  - destruct (aget (r_transient r) key); [apply Hn|apply rel0_refl].
+  - destruct (aget (r_transient r) key) as [v|]; [destruct (N.eqb v val); [apply rel0_refl|apply Hn]|apply Hn].
+Qed.
+
 Lemma rel0_room_request sid h k q : rel0 sid h (fst (room_request h k q)).
 Proof.
   unfold room_request. destruct (room_of h k) as [r|]; [|apply rel0_refl].
-  destruct q as [|users rs|tag|l|l|ic|tag|ok]; [| | | | | | |apply rel0_refl].
+  destruct q as [|users rs|tag|l|l|ic|tag|ok|del key val]; [| | | | | | |apply rel0_refl|apply rel0_transient_update].
   - (* delete *)
     match goal with |- context [fold_sessions h ?int ?f] => set (internals := int); set (g := f) end.
     destruct (fold_sessions h internals g) as [h0 o0] eqn:H0.
@@ -514,7 +526,7 @@ Proof.
   assert (Hpub : forall hh s m, rel0 sid h hh -> rel0 sid h (publish hh s m)).
   { intros hh s m R. eapply rel0_trans; [exact R|apply rel0_publish]. }
   pose proof (rel0_refl sid h) as R0.
-  destruct q as [|users rs|tag|l|l|ic|tag|ok]; cbn [fst]; auto.
+  destruct q as [|users rs|tag|l|l|ic|tag|ok|del key val]; cbn [fst]; auto.
   - match goal with |- rel0 _ _ (fold_left ?f ?l ?h0) => apply (wf_fold_left_hub (fun hh => rel0 sid h hh) f l h0) end.
     + match goal with |- rel0 _ _ (fold_left ?f ?l ?h0) => apply (wf_fold_left_hub (fun hh => rel0 sid h hh) f l h0) end; auto.
     + intros hh y Hhh. destruct (aget (h_rs2 hh) (1000000 + y)); auto.
@@ -846,16 +858,9 @@ Proof.
   - apply rel_of_rel0, rel0_do_mcudone.
   - (* transient data *)
     apply Hws. intros cn x s Hc Hs. apply rel_of_rel0. destruct (s_room s) as [k|]; [|apply rel0_refl].
+    destruct (2 <=? kindn); [apply rel0_refl|].
     destruct (negb (allowed_transient s)); [apply rel0_refl|]. destruct (room_of h k) as [r|]; [|apply rel0_refl].
-    assert (Hupd : forall tr, rel0 sid h (set_rooms h (pset (h_rooms h) k (mkroom (r_members r) (r_incall r) (r_sessdata r) tr (r_props r)))))
-      by (intros tr; apply rel0_eq; reflexivity).
-    destruct (N.eqb kindn 0).
-    + destruct (aget (r_transient r) key) as [v|].
-      * destruct (N.eqb v val); [apply rel0_refl|]. eapply rel0_trans; [apply Hupd|].
-        apply rel0_fold_sessions. intros hh y. apply rel0_send_session.
-      * eapply rel0_trans; [apply Hupd|]. apply rel0_fold_sessions. intros hh y. apply rel0_send_session.
-    + destruct (aget (r_transient r) key); [|apply rel0_refl]. eapply rel0_trans; [apply Hupd|].
-      apply rel0_fold_sessions. intros hh y. apply rel0_send_session.
+    apply rel0_transient_update.
   - apply rel_of_rel0, rel0_deliver_at.
 Qed.
 
